@@ -1,6 +1,6 @@
 #!/usr/bin/env python3
 """seedtest.py <seed-dir> <property> [tier]: apply a seeded change to /repo, run the check, restore /repo.
-Prints the check's verdict lines; exit code = check's exit code."""
+Prints the check's verdict lines; exit code = check's exit code.  evidence/<Cnn>.json is saved and put back."""
 import subprocess, sys, os, json
 d, pid = sys.argv[1], sys.argv[2]
 tier = sys.argv[3] if len(sys.argv) > 3 else "quick"
@@ -11,6 +11,8 @@ if st:
 r = subprocess.run(["git", "-C", "/repo", "apply", patch], capture_output=True, text=True)
 if r.returncode != 0:
     print("patch does not apply:", r.stderr); sys.exit(3)
+ev = f"/verif/evidence/{pid}.json"
+saved = open(ev, "rb").read() if os.path.exists(ev) else None
 try:
     p = subprocess.run(["./check", pid, "--tier", tier], cwd="/verif", capture_output=True, text=True, timeout=3000)
     out = [l for l in p.stdout.split("\n") if l.startswith("VIOLATION") or l.startswith("KNOWN")]
@@ -25,6 +27,9 @@ try:
         print("  broken:", [b["kind"] + ":" + b["name"] for b in j.get("broken", [])][:4])
     rc = p.returncode
 finally:
+    if saved is not None:
+        open(ev, "wb").write(saved)   # the evidence of the clean tree stays what is committed
     subprocess.run(["git", "-C", "/repo", "checkout", "--", "."])
+    subprocess.run(["git", "-C", "/verif", "checkout", "--", "lean/InvProxy/Gen"])   # the generated snapshot of the clean tree
     subprocess.run(["git", "-C", "/repo", "clean", "-fdq"])
 sys.exit(rc)
